@@ -30,13 +30,13 @@ RULE = (
 )
 TOLERANCES = {"additivity_rel": 1e-10, "readback_rel": 1e-10, "unchanged_rel": 1e-12, "massfrac_sum_abs": 1e-10, "inverse_rel": 1e-12, "spec_volume_rel": 1e-9,
               "trace_abs": 1e-40}
-FLOORS = {"quick": {"block.with-negative-volume-child": 6, "ledger.block": 3000, "ledger.assembly": 300, "ledger.core": 40, "ledger.component": 2500, "edit.block-symmetry-factor-3": 18,
+FLOORS = {"quick": {"block.with-negative-volume-child": 6, "block.without-derived-shape": 8, "questions-before-audit": 800, "question.getArea(cold=True)": 120, "ledger.block": 3000, "ledger.assembly": 300, "ledger.core": 40, "ledger.component": 2500, "edit.block-symmetry-factor-3": 18,
                     "edit.block-symmetry-factor-2": 12, "ledger.component-in-block-of-factor-3": 18, "ledger.component-in-block-of-factor-2": 12,
                     "edit.cartesian-block-symmetry-factor-4": 6, "edit.cartesian-block-symmetry-factor-2": 6, "symmetry-factor.3": 45, "symmetry-factor.2": 50,
                     "symmetry-factor.cartesian-4": 12, "symmetry-factor.cartesian-2": 12, "volume-from-spec": 900, "edge-assemblies.changed": 3,
                     "readback": 2000, "readback.mass-vector": 250, "others-unchanged": 1000, "absent-nuclide.composite": 120, "absent-nuclide.component": 70,
                     "massfrac": 300, "getMasses": 6000, "getMassFrac": 3000, "densityTools": 300, "selection": 1000},
-          "thorough": {"block.with-negative-volume-child": 200, "ledger.block": 60000, "ledger.assembly": 6000, "ledger.core": 800, "ledger.component": 30000, "edit.block-symmetry-factor-3": 350,
+          "thorough": {"block.with-negative-volume-child": 200, "block.without-derived-shape": 130, "questions-before-audit": 12000, "question.getArea(cold=True)": 2000, "ledger.block": 60000, "ledger.assembly": 6000, "ledger.core": 800, "ledger.component": 30000, "edit.block-symmetry-factor-3": 350,
                        "edit.block-symmetry-factor-2": 60, "ledger.component-in-block-of-factor-3": 350, "ledger.component-in-block-of-factor-2": 60,
                        "edit.cartesian-block-symmetry-factor-4": 60, "edit.cartesian-block-symmetry-factor-2": 60, "symmetry-factor.3": 800, "symmetry-factor.2": 250,
                        "symmetry-factor.cartesian-4": 120, "symmetry-factor.cartesian-2": 120, "volume-from-spec": 10000, "edge-assemblies.changed": 15,
@@ -691,6 +691,28 @@ def absent_edit(rec, rng, obj, level, w, before):
     return "absent:" + op
 
 
+def read_only_questions(rec, rng, obj):
+    """Questions that change nothing - cold dimensions, areas and volumes, one nuclide's density - asked between an edit and the
+    audit: an answer remembered for one form of a question must never be served for another (cold for hot, one nuclide for all)."""
+    asked = []
+    kids = list(obj)
+    qs = [("getArea(cold=True)", lambda o: o.getArea(cold=True)), ("getArea()", lambda o: o.getArea()), ("getVolume()", lambda o: o.getVolume()),
+          ("getMaxArea()", lambda o: o.getMaxArea()), ("getMass()", lambda o: o.getMass()), ("getNumberDensities()", lambda o: o.getNumberDensities()),
+          ("getVolumeFractions()", lambda o: o.getVolumeFractions()), ("getHeight()", lambda o: o.getHeight()),
+          ("child.getArea(cold=True)", lambda o: rng.choice(kids).getArea(cold=True)), ("child.getVolume()", lambda o: rng.choice(kids).getVolume()),
+          ("child.getDimension(cold=True)", lambda o: [c.getDimension(d, cold=True) for c in kids[:2] for d in c.DIMENSION_NAMES if c.p[d] is not None]),
+          ("getNuclides()", lambda o: o.getNuclides()), ("getSymmetryFactor()", lambda o: o.getSymmetryFactor())]
+    for name, q in rng.sample(qs, rng.randint(1, 4)):
+        try:
+            q(obj)
+            asked.append(name)
+            rec.hit("question." + name)
+        except Exception:
+            pass
+    rec.hit("questions-before-audit")
+    return ",".join(asked)
+
+
 def geometry_edit(rec, rng, block, w):
     from armi.materials import material as matmod
 
@@ -791,6 +813,9 @@ def do_blocks(spec, rec, rng0):
         rng = random.Random("%s:%d" % (spec["rng"], i))
         if rng.random() < .15:
             bs = gen.pin_block_spec(rng, kind="fuel", overlap=True)  # a child with negative volume (overlapped Void gap)
+        elif rng.random() < .15:
+            bs = gen.generic_block_spec(rng, derived=False)  # stated shapes only: hot and cold area totals differ
+            rec.hit("block.without-derived-shape")
         else:
             bs = gen.generic_block_spec(rng) if rng.random() < .5 else gen.pin_block_spec(rng, kind=rng.choice(["fuel", "fuel", "control", "shield", "plenum"]))
         w = {"block": bs["components"], "case": i}
@@ -819,6 +844,8 @@ def do_blocks(spec, rec, rng0):
             else:
                 op = "b:" + do_edit(rec, rng, b, "block", dict(w, history=hist))
             hist.append(op)
+            if rng.random() < .35:
+                hist.append("ask:" + read_only_questions(rec, rng, b))
             check_ledger(rec, b, "block", dict(w, history=hist), rng=rng)
             cc = c if op.startswith("c:") else rng.choice(list(b))
             check_ledger(rec, cc, "component", dict(w, history=hist, component=cc.name), rng=rng if e % 3 == 0 else None)
